@@ -34,6 +34,7 @@ import (
 	"sync"
 	"sync/atomic"
 	"time"
+	"unsafe"
 
 	"github.com/dapr/kit/concurrency/cmap"
 	"github.com/dapr/kit/concurrency/fifo"
@@ -51,10 +52,12 @@ const (
 var errCfgCause = errors.New("c13: configured cause")
 
 type c13Op struct {
-	Op string `json:"op"` // lock rlock unlock dunlock delete clear cancel shutdown grace
-	T  int    `json:"t,omitempty"`
-	K  int    `json:"k,omitempty"`
-	C  int    `json:"c,omitempty"`
+	Op  string  `json:"op"` // lock rlock unlock dunlock delete clear cancel shutdown grace batch
+	T   int     `json:"t,omitempty"`
+	K   int     `json:"k,omitempty"`
+	C   int     `json:"c,omitempty"`
+	Ops []c13Op `json:"ops,omitempty"` // batch: member calls (lock rlock unlock), distinct threads
+	P1  bool    `json:"p1,omitempty"`  // batch: thaw on a single P (deterministic queue-order run) instead of all Ps
 }
 
 type c13Input struct {
@@ -64,9 +67,10 @@ type c13Input struct {
 	Keys    int     `json:"keys"`
 	Ops     []c13Op `json:"ops,omitempty"`
 	GraceMs int     `json:"grace_ms,omitempty"`
-	// stress
+	// stress / churn
 	Iters int   `json:"iters,omitempty"`
 	Seed  int64 `json:"seed,omitempty"`
+	Maps  int   `json:"maps,omitempty"` // churn: independent lock objects, N goroutines each on one key
 }
 
 // ---------------------------------------------------------------------------------------
@@ -243,6 +247,7 @@ type thread struct {
 	callAt  time.Time
 	wcall   *writerCall
 	// outer readers
+	releasing  atomic.Bool  // a release call is in flight
 	toldAt     atomic.Int64 // unix nanos at which the watcher saw rctx done
 	releasedBy bool         // the driver asked for the release
 }
@@ -426,11 +431,13 @@ func (r *runner) doRelease(ti int, del bool) {
 		r.mu.Lock()
 		t.st = stIdle // leaves the critical section before the release call
 		r.mu.Unlock()
+		t.releasing.Store(true)
 		if del {
 			a.delRelease()
 		} else {
 			a.release()
 		}
+		t.releasing.Store(false)
 	}
 }
 
@@ -504,6 +511,87 @@ func (r *runner) judgeReaders() {
 	}
 }
 
+// mapLock gives the driver the map's OWN lock (fifo.Map: a.lock *fifo.Mutex; cmap.Mutex: a.lock
+// sync.RWMutex, taken exclusively), read through reflection from the unexported field. Holding
+// it parks every call at the very start of its first map section: calls issued one by one while
+// the map is frozen queue up on it (for the fifo map in issue order - it is a FIFO mutex), and
+// when the driver lets go their map sections and mutex operations interleave for real: the
+// context switches "between the look-up and the mutex operation" of the property.
+func mapLock(lk lockObj) (lock, unlock func(), ok bool) {
+	switch l := lk.(type) {
+	case fifoMapLock:
+		v := reflect.ValueOf(l.m)
+		if v.Kind() != reflect.Pointer || v.Elem().Kind() != reflect.Struct {
+			return nil, nil, false
+		}
+		f := v.Elem().FieldByName("lock")
+		if !f.IsValid() || f.Type() != reflect.TypeOf((*fifo.Mutex)(nil)) || f.IsNil() {
+			return nil, nil, false
+		}
+		m := (*fifo.Mutex)(f.UnsafePointer())
+		return m.Lock, m.Unlock, true
+	case cmapLock:
+		v := reflect.ValueOf(l.m)
+		if v.Kind() != reflect.Pointer || v.Elem().Kind() != reflect.Struct {
+			return nil, nil, false
+		}
+		f := v.Elem().FieldByName("lock")
+		if !f.IsValid() || f.Type() != reflect.TypeOf(sync.RWMutex{}) || !f.CanAddr() {
+			return nil, nil, false
+		}
+		m := (*sync.RWMutex)(unsafe.Pointer(f.UnsafeAddr()))
+		return m.Lock, m.Unlock, true
+	}
+	return nil, nil, false
+}
+
+// issueBatch: freeze the map, issue the member calls one by one (each is parked on the map lock
+// before the next one starts), thaw. With p1 on one P: the thawed calls then run in queue order,
+// each up to its next blocking point (a slip between two map sections shows every time, not
+// sometimes); without it on all Ps: calls released together (cmap readers) really overlap. The
+// verdict never depends on which schedule happened: the model explores them all.
+func (r *runner) issueBatch(op c13Op, prev obsRec) bool {
+	lock, unlock, ok := mapLock(r.lk)
+	if !ok {
+		panic("c13: this map has no recognisable internal lock: batch steps cannot run")
+	}
+	if op.P1 {
+		old := runtime.GOMAXPROCS(1)
+		defer runtime.GOMAXPROCS(old)
+	}
+	lock()
+	for _, m := range op.Ops {
+		r.issue(m, prev)
+		if !waitQuiescent() {
+			unlock()
+			return false
+		}
+	}
+	unlock()
+	return true
+}
+
+// cmapBatchOK mirrors Check.v's c_batch_ok: no batch overlaps a writer's Unlock with a fresh RLock
+// of the same key (sync.RWMutex's reader semaphore lets the newcomer take the place of a released
+// reader that has not run yet; not modelled, irrelevant to exclusion).
+func cmapBatchOK(ms []c13Op, prev obsRec) bool {
+	for _, u := range ms {
+		if u.Op != "unlock" || prev.St[u.T] != stHoldW {
+			continue
+		}
+		for _, a := range ms {
+			if a.Op == "rlock" && a.K == prev.Keys[u.T] {
+				return false
+			}
+		}
+	}
+	return true
+}
+
+func batchMemberOK(op c13Op) bool {
+	return op.Op == "lock" || op.Op == "rlock" || op.Op == "unlock"
+}
+
 func otherUsers(st []int, keys []int, k, except int) bool {
 	for i := range st {
 		if i != except && st[i] != stIdle && keys[i] == k {
@@ -543,6 +631,16 @@ func (r *runner) applicable(op c13Op, prev obsRec) bool {
 		return lk == "ctx" || lk == "outer"
 	case "shutdown", "grace":
 		return lk == "outer"
+	case "batch":
+		if lk != "fifomap" && lk != "cmap" {
+			return false
+		}
+		for _, m := range op.Ops {
+			if !batchMemberOK(m) || !r.applicable(m, prev) {
+				return false
+			}
+		}
+		return lk != "cmap" || cmapBatchOK(op.Ops, prev)
 	}
 	panic("c13: bad op " + op.Op)
 }
@@ -640,7 +738,15 @@ func (r *runner) run(next func(prev obsRec, step int) (c13Op, bool)) []obsRec {
 			obs = append(obs, o)
 			continue
 		}
-		r.issue(op, prev)
+		if op.Op == "batch" {
+			if !r.issueBatch(op, prev) {
+				r.stuck = true
+				obs = append(obs, r.sample())
+				break
+			}
+		} else {
+			r.issue(op, prev)
+		}
 		if !waitQuiescent() {
 			r.stuck = true
 			o := r.sample()
@@ -649,7 +755,15 @@ func (r *runner) run(next func(prev obsRec, step int) (c13Op, bool)) []obsRec {
 		}
 		r.judgeReaders()
 		o := r.sample()
+		for _, t := range r.th {
+			if t.releasing.Load() {
+				r.stuck = true // everything is parked and a release call has not returned: it never will
+			}
+		}
 		obs = append(obs, o)
+		if r.stuck {
+			break
+		}
 		prev = o
 		prev.Skip = false
 		if r.violated(o) {
@@ -719,6 +833,15 @@ func opCoq(op c13Op) string {
 		return "SShutdown"
 	case "grace":
 		return "SGrace"
+	case "batch":
+		ms := make([]string, len(op.Ops))
+		for i, m := range op.Ops {
+			if !batchMemberOK(m) {
+				panic("c13: bad batch member " + m.Op)
+			}
+			ms[i] = opCoq(m)
+		}
+		return "SBatch " + hx.CoqList(ms)
 	}
 	panic("c13: bad op " + op.Op)
 }
@@ -762,7 +885,15 @@ func scriptFacts(in c13Input) map[string]any {
 	ctxDead := map[int]bool{}
 	writerBefore := map[int]bool{} // writers that asked before shutdown and have not released
 	across, readerAcross := false, false
+	var flat []c13Op // members of a batch count as issued one after the other
 	for _, op := range in.Ops {
+		if op.Op == "batch" {
+			flat = append(flat, op.Ops...)
+		} else {
+			flat = append(flat, op)
+		}
+	}
+	for _, op := range flat {
 		switch op.Op {
 		case "lock", "rlock":
 			if _, busy := active[op.T]; busy {
@@ -840,8 +971,17 @@ func runScript(ctx *core.Ctx, in c13Input, next func(prev obsRec, step int) (c13
 	}
 	for _, op := range in.Ops {
 		opCoq(op)
-		if op.K < 0 || op.K >= in.Keys || op.C < 0 || op.C >= nCtx {
-			panic("c13: key/context out of range")
+		seen := map[int]bool{}
+		for _, m := range append([]c13Op{op}, op.Ops...) {
+			if m.K < 0 || m.K >= in.Keys || m.C < 0 || m.C >= nCtx {
+				panic("c13: key/context out of range")
+			}
+			if m.Op != "batch" && op.Op == "batch" {
+				if seen[m.T] {
+					panic("c13: a thread appears twice in a batch")
+				}
+				seen[m.T] = true
+			}
 		}
 	}
 	r := newRunner(in)
@@ -870,7 +1010,13 @@ func runScript(ctx *core.Ctx, in c13Input, next func(prev obsRec, step int) (c13
 	for i, op := range in.Ops {
 		coqOps[i] = opCoq(op)
 		shape[i] = fmt.Sprintf("%s%d.%d.%d", op.Op[:2], op.T, op.K, op.C)
+		for _, m := range op.Ops {
+			shape[i] += fmt.Sprintf("[%s%d.%d]", m.Op[:2], m.T, m.K)
+		}
 		ctx.Sink.Count(in.Lock + "/op=" + op.Op)
+		if op.Op == "batch" && i < len(obs) && !obs[i].Skip {
+			ctx.Sink.Count(in.Lock + "/" + batchClass(op, obs, i))
+		}
 	}
 	cancelWhileWaiting := false
 	for i, o := range obs {
@@ -938,12 +1084,103 @@ func runScript(ctx *core.Ctx, in c13Input, next func(prev obsRec, step int) (c13
 // ---------------------------------------------------------------------------------------
 // adaptive generation of scripts
 
+// batchClass names what a batch races, for the input-distribution statistics
+func batchClass(op c13Op, obs []obsRec, i int) string {
+	prev := obsRec{}
+	if i > 0 {
+		prev = obs[i-1]
+	}
+	for _, u := range op.Ops {
+		if u.Op != "unlock" || prev.St == nil {
+			continue
+		}
+		k := prev.Keys[u.T]
+		last := !otherUsers(prev.St, prev.Keys, k, u.T)
+		for _, l := range op.Ops {
+			if (l.Op == "lock" || l.Op == "rlock") && l.K == k {
+				if last {
+					return "batch=last_holder_release_vs_fresh_acquire"
+				}
+				return "batch=release_vs_acquire_same_key"
+			}
+		}
+	}
+	return "batch=other"
+}
+
 type genCfg struct {
 	lock      string
 	n, keys   int
 	steps     int
 	unsafeDel bool // cmap: allow Delete*/Clear on keys in use
+	batches   bool // fifomap / cmap: frozen-map batches
 	shutdown  bool // outer: one shutdown somewhere
+}
+
+// genBatch: 2..3 calls of distinct threads that start while the map is frozen. Mostly a release
+// racing an acquisition of the SAME key (both orders; the releasing thread being the key's last
+// user or not), otherwise a random mix. No delete-and-release in a batch: a delete racing a
+// concurrent arrival is the known cmap defect and the script-level facts could not tell. For the
+// fifo map at most one acquisition per key (arrival order at the key mutex stays the issue order).
+func genBatch(r *hx.Rand, g genCfg, prev obsRec, idle, hold []int) (c13Op, bool) {
+	acq := func(t, k int) c13Op {
+		op := c13Op{Op: "lock", T: t, K: k, C: r.Intn(nCtx)}
+		if g.lock == "cmap" && r.Chance(1, 2) {
+			op.Op = "rlock"
+		}
+		return op
+	}
+	var ms []c13Op
+	if len(hold) > 0 && r.Chance(3, 4) {
+		h := hold[r.Intn(len(hold))]
+		k := prev.Keys[h]
+		rel, a := c13Op{Op: "unlock", T: h}, acq(idle[r.Intn(len(idle))], k)
+		if r.Chance(2, 3) {
+			ms = []c13Op{rel, a}
+		} else {
+			ms = []c13Op{a, rel}
+		}
+	} else {
+		ms = []c13Op{acq(idle[r.Intn(len(idle))], r.Intn(g.keys))}
+	}
+	used := map[int]bool{}
+	lockedKey := map[int]bool{}
+	for _, m := range ms {
+		used[m.T] = true
+		if m.Op != "unlock" {
+			lockedKey[m.K] = true
+		}
+	}
+	for extra := r.Intn(2); extra > 0 || len(ms) < 2; extra-- {
+		var cand []c13Op
+		for _, t := range idle {
+			if !used[t] {
+				k := r.Intn(g.keys)
+				if g.lock == "fifomap" && lockedKey[k] {
+					continue
+				}
+				cand = append(cand, acq(t, k))
+			}
+		}
+		for _, t := range hold {
+			if !used[t] {
+				cand = append(cand, c13Op{Op: "unlock", T: t})
+			}
+		}
+		if len(cand) == 0 {
+			break
+		}
+		m := cand[r.Intn(len(cand))]
+		used[m.T] = true
+		if m.Op != "unlock" {
+			lockedKey[m.K] = true
+		}
+		ms = append(ms, m)
+	}
+	if len(ms) < 2 || (g.lock == "cmap" && !cmapBatchOK(ms, prev)) {
+		return c13Op{}, false
+	}
+	return c13Op{Op: "batch", Ops: ms, P1: r.Chance(1, 2)}, true
 }
 
 func genScript(r *hx.Rand, g genCfg) func(prev obsRec, step int) (c13Op, bool) {
@@ -990,6 +1227,11 @@ func genScript(r *hx.Rand, g genCfg) func(prev obsRec, step int) (c13Op, bool) {
 		}
 		if g.lock == "outer" && len(wait) > 0 && r.Chance(2, 5) {
 			return c13Op{Op: "grace"}, true
+		}
+		if g.batches && len(idle) > 0 && r.Chance(1, 3) {
+			if b, ok := genBatch(r, g, prev, idle, hold); ok {
+				return b, true
+			}
 		}
 		for try := 0; try < 20; try++ {
 			x := r.Intn(100)
@@ -1202,6 +1444,139 @@ func runStress(ctx *core.Ctx, in c13Input) {
 }
 
 // ---------------------------------------------------------------------------------------
+// churn: many independent lock objects, each hammered on ONE key by a few goroutines that pause
+// for a pseudo-random moment outside the critical section, so that the key is often released by
+// its last user just as another one arrives (entry pruned and re-created over and over). No
+// scheduling seam is needed; it finds slips between two adjacent statements only with some
+// probability per run, which is why it complements the frozen-map batches and never replaces them.
+
+func runChurn(ctx *core.Ctx, in c13Input) {
+	if in.N < 2 || in.N > 4 || in.Maps < 1 || in.Maps > 64 || in.Iters < 1 {
+		panic("c13: churn parameters out of range")
+	}
+	var stop atomic.Bool
+	var bad, panics atomic.Int32
+	var acquisitions atomic.Int64
+	var wg sync.WaitGroup
+	var fms []fifoMapLock
+	rw := in.Lock == "cmap" || in.Lock == "ctx"
+	for m := 0; m < in.Maps; m++ {
+		var lk lockObj
+		switch in.Lock {
+		case "fifo":
+			lk = fifoLock{fifo.New()}
+		case "fifomap":
+			fm := fifoMapLock{fifo.NewMap[int]()}
+			fms = append(fms, fm)
+			lk = fm
+		case "cmap":
+			lk = cmapLock{cmap.NewMutex[int]()}
+		case "ctx":
+			lk = ctxLock{lock.NewContext()}
+		default:
+			panic("c13: bad churn lock " + in.Lock)
+		}
+		occ := new(int32)
+		for w := 0; w < in.N; w++ {
+			rr := hx.NewRand(uint64(in.Seed) + uint64(m*in.N+w)*7919)
+			wg.Add(1)
+			go func() {
+				defer wg.Done()
+				defer func() {
+					if e := recover(); e != nil {
+						panics.Add(1)
+						stop.Store(true)
+					}
+				}()
+				var sink uint64
+				for i := 0; i < in.Iters && !stop.Load(); i++ {
+					for j, n := 0, rr.Intn(256); j < n; j++ {
+						sink += uint64(j)
+					}
+					write := !rw || rr.Chance(2, 3)
+					a, res := lk.acquire(write, 0, context.Background())
+					if res != resOk {
+						bad.Add(1)
+						stop.Store(true)
+						return
+					}
+					acquisitions.Add(1)
+					if write {
+						if v := atomic.AddInt32(occ, 1<<16); v != 1<<16 {
+							bad.Add(1)
+							stop.Store(true)
+						}
+					} else if v := atomic.AddInt32(occ, 1); v>>16 != 0 {
+						bad.Add(1)
+						stop.Store(true)
+					}
+					if rr.Chance(1, 64) {
+						runtime.Gosched()
+					}
+					if write {
+						atomic.AddInt32(occ, -(1 << 16))
+					} else {
+						atomic.AddInt32(occ, -1)
+					}
+					a.release()
+				}
+				if sink == 42 {
+					runtime.Gosched()
+				}
+			}()
+		}
+	}
+	done := make(chan struct{})
+	go func() { wg.Wait(); close(done) }()
+	hang := false
+	deadline := time.NewTimer(60 * time.Second)
+	defer deadline.Stop()
+	tick := time.NewTicker(20 * time.Millisecond)
+	defer tick.Stop()
+	var stoppedAt time.Time
+loop:
+	for {
+		select {
+		case <-done:
+			break loop
+		case <-deadline.C:
+			hang = true
+			break loop
+		case <-tick.C:
+			// after a failure the other goroutines may be wedged on an orphaned mutex: do not wait long
+			if stop.Load() {
+				if stoppedAt.IsZero() {
+					stoppedAt = time.Now()
+				} else if time.Since(stoppedAt) > 2*time.Second {
+					break loop
+				}
+			}
+		}
+	}
+	leaked := 0
+	if !hang && !stop.Load() {
+		for _, fm := range fms {
+			leaked += fm.entries()
+		}
+	}
+	c := hx.Case{Kind: "churn", Input: hx.MustJSON(in), Facts: map[string]any{"lock": in.Lock}}
+	c.Class = fmt.Sprintf("churn/%s/m%d/n%d", in.Lock, in.Maps, in.N)
+	c.Observed = map[string]any{"occupancy_violations": bad.Load(), "panics": panics.Load(), "hang": hang,
+		"leaked_entries": leaked, "acquisitions": acquisitions.Load()}
+	if bad.Load() > 0 || panics.Load() > 0 || hang || leaked != 0 {
+		c.Direct = 2
+		c.Note = "churn run: two holders of one key, panic inside the lock, hang or leaked fifo-map entry"
+	}
+	ctx.Sink.Count("kind=churn/" + in.Lock)
+	if n, ok := ctx.Sink.Extra["churn_acquisitions/"+in.Lock].(int64); ok {
+		ctx.Sink.Extra["churn_acquisitions/"+in.Lock] = n + acquisitions.Load()
+	} else {
+		ctx.Sink.Extra["churn_acquisitions/"+in.Lock] = acquisitions.Load()
+	}
+	ctx.Sink.Add(c)
+}
+
+// ---------------------------------------------------------------------------------------
 
 func c13Run(ctx *core.Ctx, in c13Input) {
 	switch in.Kind {
@@ -1209,6 +1584,8 @@ func c13Run(ctx *core.Ctx, in c13Input) {
 		runScript(ctx, in, nil)
 	case "stress":
 		runStress(ctx, in)
+	case "churn":
+		runChurn(ctx, in)
 	default:
 		panic("c13: bad kind " + in.Kind)
 	}
@@ -1231,6 +1608,15 @@ func c13Gen(ctx *core.Ctx) {
 			runStress(ctx, c13Input{Kind: "stress", Lock: lk, N: r.Range(2, 8), Keys: keys, Iters: 1500, Seed: int64(r.U64() >> 1)})
 		}
 	}
+	for _, lk := range []string{"fifomap", "cmap", "fifo", "ctx"} {
+		iters := 3000
+		if lk == "fifomap" || lk == "cmap" {
+			iters = 25000 // the two maps prune / create per-key state: most of the churn budget goes here
+		}
+		for i := 0; i < 3*mul; i++ {
+			runChurn(ctx, c13Input{Kind: "churn", Lock: lk, N: 2 + i%2, Maps: 32, Iters: iters, Seed: int64(r.U64() >> 1)})
+		}
+	}
 	type plan struct {
 		lock  string
 		count int
@@ -1240,6 +1626,12 @@ func c13Gen(ctx *core.Ctx) {
 	// every later quiescence test pays for them (runtime.Stack walks all goroutines), so these
 	// scripts are generated in their slot (same PRNG stream) but RUN last.
 	var deferred []func()
+	_, _, okF := mapLock(fifoMapLock{fifo.NewMap[int]()})
+	_, _, okC := mapLock(cmapLock{cmap.NewMutex[int]()})
+	batchesOK := okF && okC
+	if !batchesOK {
+		ctx.Sink.Count("batches_unavailable(internal map lock not recognised)")
+	}
 	for _, p := range plans {
 		for i := 0; i < p.count*mul; i++ {
 			g := genCfg{lock: p.lock, n: r.Range(2, 8), keys: r.Range(1, 3), steps: r.Range(4, 18)}
@@ -1256,7 +1648,9 @@ func c13Gen(ctx *core.Ctx) {
 				g.shutdown = i%4 == 0
 			case "cmap":
 				g.unsafeDel = i%8 == 0
+				g.batches = batchesOK && i%2 == 1
 			case "fifomap":
+				g.batches = batchesOK && i%2 == 1
 				if i%3 == 0 {
 					g.n = r.Range(3, 8)
 					g.keys = r.Range(1, 2)
